@@ -12,6 +12,37 @@ fn quoted_in(msg: &str, word: &str) -> bool {
     PAIRS.iter().any(|(a, b)| msg.contains(&format!("{}{}{}", a, word, b)))
 }
 
+/// Quoted span that starts right after (<= 2 characters) an occurrence of the role word, if any.
+fn span_after_role(msg: &str, role: &str) -> Vec<String> {
+    let mut out = vec![];
+    let mut from = 0;
+    while let Some(p) = msg[from..].find(role) {
+        let start = from + p;
+        let end = start + role.len();
+        from = end;
+        // whole word only
+        if start > 0 && msg[..start].chars().last().map_or(false, |c| c.is_alphanumeric()) {
+            continue;
+        }
+        let rest = &msg[end..];
+        let lead: String = rest.chars().take_while(|c| *c == ' ' || *c == ':').collect();
+        if lead.chars().count() > 2 {
+            continue;
+        }
+        let after = &rest[lead.len()..];
+        for (a, b) in PAIRS.iter() {
+            if after.starts_with(*a) {
+                let body = &after[a.len_utf8()..];
+                if let Some(e) = body.find(*b) {
+                    out.push(body[..e].to_string());
+                }
+                break;
+            }
+        }
+    }
+    out
+}
+
 fn backtick_spans(msg: &str) -> Vec<String> {
     let parts: Vec<&str> = msg.split('`').collect();
     let mut v = vec![];
@@ -98,6 +129,16 @@ fn check(text: &str, case: &str, before: usize, rep: &mut Report) {
             }
             if !quoted_in(&msg, arg) {
                 problems.push(format!("bad-argument:{}:argument-not-quoted", class));
+            }
+            // roles: where the message says "argument <quote>" / "test|action|option <quote>", the
+            // quoted text must be the argument / the keyword (not the other way round)
+            if span_after_role(&msg, "argument").iter().any(|s| s == kw && s != arg) {
+                problems.push(format!("bad-argument:{}:keyword-presented-as-argument", class));
+            }
+            for role in ["test", "action", "option"] {
+                if span_after_role(&msg, role).iter().any(|s| s == arg && s != kw) {
+                    problems.push(format!("bad-argument:{}:argument-presented-as-keyword", class));
+                }
             }
         }
         Failure::UnknownWord(w) => {
